@@ -19,10 +19,15 @@
    missing/multiple start and terminal-enum errors count the declarations (and list their
    positions).  For a source text: generate = Ok implies the parsed file is WF, and a validation
    error of generate is truthful for the parsed file (theorems C10_generate_ok_only... and C10_generate_validation... below).
-   The positions are those stored in the AST; that they are the byte offsets of the tokens in
-   the source is Lex/Spans.v (C07) and the check's oracle (oracles.wf_check on the token stream). *)
+   The positions are those stored in the AST; AND they are byte offsets of tokens of the source
+   (PosMapProofs.v): every position carried by a non-syntax error of `generate` is the position
+   stored by some token of the tokenised source, whose text stands in the source at exactly that
+   byte offset (one byte after the `$` for a terminal name) — a corollary of the position-map
+   theorem of C16 taken with a map that fixes exactly the stored positions
+   (C10_error_positions_are_byte_offsets_of_tokens).  The check's oracle (oracles.wf_check on the
+   token stream) decides which token per input. *)
 From Coq Require Import List.
-From Kiki Require Import Base.Ord Base.Chars Data Lex.Model Front.Parse Ast.Validate Ast.WF Ast.ValidateProofs Ast.Truthful Pipeline PipelineProofs.
+From Kiki Require Import Base.Ord Base.Chars Data Lex.Model Front.Parse Ast.Validate Ast.WF Ast.ValidateProofs Ast.Truthful Lex.Spec Pipeline PipelineProofs PosMapProofs.
 
 Theorem C10_accepts_only_well_formed_files : forall f v, validate_ast f = Ok v -> WF f.
 Proof. exact validate_ast_ok_WF. Qed.
@@ -46,6 +51,13 @@ Theorem C10_generate_validation_errors_are_truthful : forall ho digest src token
   validate_ast ast = Err e -> generate_model ho digest src = Err e /\ truthful ast e.
 Proof. exact generate_validation_error_truthful. Qed.
 
+Theorem C10_error_positions_are_byte_offsets_of_tokens : forall ho digest src toks e,
+  tokenize src = Ok toks -> generate_model ho digest src = Err e ->
+  (forall s c x, e <> EParse s c x) ->
+  Forall (fun p => exists t pre post, In t toks /\ spos t = p /\ src = pre ++ lexeme t ++ post /\ tok_pos t = blen pre)
+         (err_positions e).
+Proof. exact error_positions_are_byte_offsets_of_tokens. Qed.
+Print Assumptions C10_error_positions_are_byte_offsets_of_tokens.
 Print Assumptions C10_accepts_only_well_formed_files.
 Print Assumptions C10_validated_file_is_the_input.
 Print Assumptions C10_errors_are_truthful.
